@@ -14,7 +14,14 @@ def run(check_id, kind, inputs):
     repo.load("cm_colors")
     mod = importlib.import_module("vf.checks.%s" % check_id.lower())
     fn = mod.REPLAYS[kind]
-    violated, detail = fn(unjson(inputs))
+    try:
+        violated, detail = fn(unjson(inputs))
+    except Exception:
+        # a crash of the REPLAY HARNESS is not a reproduction (python would exit 1, which means 'reproduced' here)
+        import traceback
+        traceback.print_exc()
+        print("REPLAY-HARNESS-ERROR")
+        return 3
     print("replay %s/%s inputs=%s" % (check_id, kind, {k: v for k, v in inputs.items() if not k.startswith("_")}))
     print(detail)
     print("REPRODUCED" if violated else "not reproduced")
